@@ -69,6 +69,10 @@ end
 /-- one field as it appears on the wire: header + value -/
 def serField (id : Nat) (v : TVal) : Bytes := u8 v.tag :: be16 id ++ ser v
 
+/-- the wire type codes of the protocol -/
+def isCode (n : Nat) : Bool :=
+  n == 2 || n == 3 || n == 4 || n == 6 || n == 8 || n == 10 || n == 11 || n == 12 || n == 13 || n == 14 || n == 15
+
 /- Well-formedness: every scalar fits its width, every length/count fits in a positive
     int32, ids fit 16 bits, container elements carry the declared element type. -/
 mutual
@@ -81,9 +85,9 @@ def wf : TVal → Bool
   | .i64 n => n < 18446744073709551616
   | .str s => s.length < 2147483648
   | .strct fs => wfFields fs
-  | .map kt vt es => kt < 256 && vt < 256 && es.length < 2147483648 && wfEntries kt vt es
-  | .set et xs => et < 256 && xs.length < 2147483648 && wfList et xs
-  | .list et xs => et < 256 && xs.length < 2147483648 && wfList et xs
+  | .map kt vt es => isCode kt && isCode vt && es.length < 2147483648 && wfEntries kt vt es
+  | .set et xs => isCode et && xs.length < 2147483648 && wfList et xs
+  | .list et xs => isCode et && xs.length < 2147483648 && wfList et xs
 def wfFields : List (Nat × TVal) → Bool
   | [] => true
   | (id, v) :: r => id < 65536 && wf v && wfFields r
